@@ -1,5 +1,6 @@
 import PestModel.Model.StackDriver
 import PestModel.Model.LineColDriver
+import PestModel.Model.PrattDriver
 
 open PestModel
 
@@ -15,4 +16,5 @@ def main (args : List String) : IO UInt32 := do
   match args with
   | ["stack"] => loop stdin stdout StackDriver.runLine; return 0
   | ["linecol"] => loop stdin stdout LineColDriver.runLine; return 0
+  | ["pratt"] => loop stdin stdout PrattDriver.runLine; return 0
   | _ => IO.eprintln "usage: pestmodel <mode>"; return 2
